@@ -52,7 +52,10 @@ ASSUMPTIONS = [
     "not generated (the accrual's list-valued `value` is read through a literal index only)",
     "device attributes covered: counter value/enabled/completed (system-wide, mode, persisted), accrual value[i], switch "
     "state, timer ticks/running, playfield balls/available_balls, flipper enabled; shots, ball devices, other devices are not",
-    "light_player end-to-end conditions use attribute access, comparisons, and/or/not and if-else only",
+    "light_player end-to-end conditions use attribute access, comparisons, and/or/not and if-else only; the same two "
+    "condition texts are configured machine-wide, in game mode m1 and in free-standing mode m2 on different lights; a "
+    "mode's entries are judged only while the mode is fully up (active, not starting, not stopping) - what a stopped "
+    "mode leaves behind belongs to C07",
 ]
 HORIZONS = {"settle_min_s": 0.013, "settle_max_s": 2.21, "extra_loop_iterations": 6}
 TIERS = {
@@ -61,9 +64,9 @@ TIERS = {
 }
 MIN_EVALS = {
     "quick": {"eval": 40000, "eval_bool": 40000, "sub_value": 15000, "cond_handler": 4000, "cond_chain": 1000, "fresh": 1500,
-              "fresh_tiny_step": 100, "player_e2e": 8000},
+              "fresh_tiny_step": 100, "player_e2e": 8000, "player_e2e_shared_condition": 5000},
     "thorough": {"eval": 2000000, "eval_bool": 2000000, "sub_value": 800000, "cond_handler": 200000, "fresh": 90000,
-                 "fresh_tiny_step": 6000, "player_e2e": 400000},
+                 "fresh_tiny_step": 6000, "player_e2e": 400000, "player_e2e_shared_condition": 250000},
 }
 
 
@@ -147,7 +150,8 @@ def _gen_prep(rng):
     return ops
 
 
-_LIFE = [["start_game"], ["add_player"], ["drain"], ["stop_game"], ["post", "m1_start"], ["post", "m1_stop"]]
+_LIFE = [["start_game"], ["add_player"], ["drain"], ["stop_game"], ["post", "m1_start"], ["post", "m1_stop"],
+         ["post", "m2_start"], ["post", "m2_start"], ["post", "m2_stop"]]
 _POSTS = ["c1_count", "c2_count", "cg_count", "cg_reset", "c1_reset", "cg_enable", "cg_disable", "a1_e0", "a1_e1",
           "a1_e2", "a1_reset"]
 
@@ -284,7 +288,7 @@ def gen_case(rng, tier, index):
 # machine under test
 def _config(conds=()):
     cfg = {
-        "modes": ["m1"],
+        "modes": ["m1", "m2"],
         "machine_vars": {"mv0": {"initial_value": 5, "value_type": "int"},
                          "mv1": {"initial_value": "a", "value_type": "str"}},
         "player_vars": {"pv0": {"initial_value": 0, "value_type": "int"},
@@ -298,15 +302,28 @@ def _config(conds=()):
         "switches": {"s1": {"number": "1"}, "s_flip": {"number": "2"}},
         "coils": {"c_flip": {"number": "1", "default_pulse_ms": 10, "allow_enable": True}},
         "flippers": {"f1": {"main_coil": "c_flip", "activation_switch": "s_flip"}},
-        "lights": {"l0": {"number": "0", "subtype": "led", "type": "rgb"},
-                   "l1": {"number": "3", "subtype": "led", "type": "rgb"}},
+        "lights": {"l%d" % i: {"number": str(3 * i), "subtype": "led", "type": "rgb"} for i in range(6)},
     }
     if conds:
         cfg["light_player"] = {"{%s}" % c: {"l%d" % i: "red"} for i, c in enumerate(conds)}
     return cfg
 
 
-_MODES = {"m1": {
+def _modes(conds=()):
+    """m1 (game mode) and m2 (free-standing mode).  Both repeat the machine-wide light_player conditions - the very same
+    condition text - on lights of their own, so one condition is active in up to three contexts of one config player."""
+    import copy
+    modes = copy.deepcopy(_MODES)
+    if conds:
+        for k, name in enumerate(("m1", "m2")):
+            modes[name]["light_player"] = {"{%s}" % c: {"l%d" % (2 * (k + 1) + i): "red"} for i, c in enumerate(conds)}
+    return modes
+
+
+# context name, first light
+_CONTEXTS = (("_global", 0), ("m1", 2), ("m2", 4))
+
+_MODES = {"m2": {"mode": {"start_events": "m2_start", "stop_events": "m2_stop", "game_mode": False}}, "m1": {
     "mode": {"start_events": "m1_start", "stop_events": "m1_stop", "game_mode": True},
     "counters": {"c1": {"count_events": "c1_count", "starting_count": 0, "persist_state": True,
                         "reset_events": "c1_reset"},
@@ -918,7 +935,7 @@ def _run_sub(case):
     from vlib import c16_ref as R
     from vlib.boot import VMachine
 
-    clauses = {"sub_value": 0, "fresh": 0, "fresh_tiny_step": 0, "player_e2e": 0}
+    clauses = {"sub_value": 0, "fresh": 0, "fresh_tiny_step": 0, "player_e2e": 0, "player_e2e_shared_condition": 0}
     obs = {"ops_applied": 0, "ops_skipped": 0, "notified": 0, "notified_and_changed": 0, "resubscribed": 0,
            "fresh_eval_raised": 0, "templates_dropped": 0, "changed_but_mpf_equal": 0, "only_type_changed": 0,
            "player_reevaluations": 0, "skipped_too_big": 0}
@@ -946,7 +963,7 @@ def _run_sub_body(case, conds, clauses, obs, viol, default, restore):
     from vlib import c16_ref as R
     from vlib.boot import VMachine
 
-    with VMachine(_config(conds), modes=_MODES, kind="fake") as vm:
+    with VMachine(_config(conds), modes=_modes(conds), kind="fake") as vm:
         m = vm.machine
         pm = m.placeholder_manager
         world = _World(vm, obs)
@@ -1006,13 +1023,13 @@ def _run_sub_body(case, conds, clauses, obs, viol, default, restore):
         # What the player last acted on is known exactly: every re-evaluation ends in a handle_subscription_change call
         # (handler-invocation boundary), where the state the condition was computed from is recorded.
         cond_leaves = [R.placeholder_leaves(c) for c in conds]
-        snaps = [None for _ in conds]
+        snaps = {}      # (context, condition index) -> state the player last acted on
 
-        def snapshot(i):
+        def snapshot(ctx, i):
             mirrors.reads.clear()
             ref = _ref(conds[i], ns)
-            snaps[i] = {"ref": ref, "reads": set(mirrors.reads), "vals": leaf_vals(cond_leaves[i]),
-                        "keyvals": {l[3]: mirrors.read_key(l[3]) for l in cond_leaves[i]}, "ops": []}
+            snaps[(ctx, i)] = {"ref": ref, "reads": set(mirrors.reads), "vals": leaf_vals(cond_leaves[i]),
+                               "keyvals": {l[3]: mirrors.read_key(l[3]) for l in cond_leaves[i]}, "ops": []}
 
         from mpf.config_players.light_player import LightPlayer
         orig_handle = LightPlayer.handle_subscription_change
@@ -1020,7 +1037,7 @@ def _run_sub_body(case, conds, clauses, obs, viol, default, restore):
         def observed_handle(self_, value, settings, priority, context, key):
             if self_.machine is m and key in conds:
                 try:
-                    snapshot(conds.index(key))
+                    snapshot(context, conds.index(key))
                     obs["player_reevaluations"] += 1
                 except Exception:   # noqa - observation only
                     pass
@@ -1029,21 +1046,38 @@ def _run_sub_body(case, conds, clauses, obs, viol, default, restore):
         LightPlayer.handle_subscription_change = observed_handle
         restore.append(lambda: setattr(LightPlayer, "handle_subscription_change", orig_handle))
         for i in range(len(conds)):
-            snapshot(i)
+            snapshot("_global", i)
+
+        def context_live(ctx):
+            """Machine-wide entries always act; a mode's entries only while the mode is fully up."""
+            if ctx == "_global":
+                return True
+            mode = m.modes[ctx]
+            return bool(mode.active) and not mode.stopping and not getattr(mode, "_starting", False)
 
         def check_conds(step, op):
-            for i, c in enumerate(conds):
+            for ctx, first_light in _CONTEXTS:
+                if not context_live(ctx):
+                    continue
+                for i, c in enumerate(conds):
+                    check_cond(step, op, ctx, first_light + i, i, c)
+
+        def check_cond(step, op, ctx, light, i, c):
                 ref = _ref(c, ns)
                 if ref[0] in (R.SOFT, R.SKIP):
-                    continue
+                    return
                 truth = bool(ref[1]) if ref[0] == R.VALUE else False
-                lit = tuple(m.lights["l%d" % i].get_color().rgb) != (0, 0, 0)
+                lit = tuple(m.lights["l%d" % light].get_color().rgb) != (0, 0, 0)
                 clauses["player_e2e"] += 1
-                snap = snaps[i]
+                if ctx != "_global":
+                    clauses["player_e2e_shared_condition"] += 1
+                if (ctx, i) not in snaps:
+                    snapshot(ctx, i)
+                snap = snaps[(ctx, i)]
                 if op is not None:
                     snap["ops"].append(op)
                 if lit == truth:
-                    continue
+                    return
                 now = leaf_vals(cond_leaves[i])
                 changed = [l for l in cond_leaves[i]
                            if _norm_differs(snap["vals"].get(l[0]), now.get(l[0])) and l[3] in snap["reads"]]
@@ -1061,10 +1095,11 @@ def _run_sub_body(case, conds, clauses, obs, viol, default, restore):
                 if not changed and step >= 0:
                     # nothing the last evaluation read differs under != (only equal values of another type)
                     obs["only_type_changed"] += 1
-                    continue
+                    return
                 sig = _explain(changed, snap["ops"], R.features(c), snap["ref"][0], now) or "C16:condition_player_stale"
                 viol.append({"clause": "player_e2e", "sig": sig,
-                             "detail": {"condition": c, "step": step, "ops_since_last_evaluation": snap["ops"][-6:],
+                             "detail": {"condition": c, "context": ctx, "light": "l%d" % light, "step": step,
+                                        "ops_since_last_evaluation": snap["ops"][-6:],
                                         "light_on": lit, "python_truth": truth,
                                         "changed_leaves": [l[0] for l in changed]}})
 
